@@ -174,6 +174,21 @@ def shareRenew (env : Env) (f : File) (secret : Bytes) (newExpire : Nat) : File 
   | .immutable => ImmL.renewLease env.h f secret newExpire
   | .other => (f, none)
 
+/-- `sf.cancel_lease(cancel_secret)` on share `n` of the bucket, as `LeaseCheckingCrawler` calls it on each
+    share file; the share disappears from the bucket when its last lease is cancelled.
+    `none` = there is no such share file. -/
+def shareCancel (env : Env) (b : Bucket) (n : Nat) (secret : Bytes) : Option (Bucket × Nat × Option Err) :=
+  match lookup b n with
+  | none => none
+  | some f =>
+    let r := match kindOf f with
+      | .mutable => Mutable.cancelLease env.h f secret
+      | .immutable => ImmL.cancelLease env.h f secret
+      | .other => (some f, 0, some .unknownVersion)
+    match r with
+    | (none, freed, e) => some (erase b n, freed, e)
+    | (some f', freed, e) => some (store b n f', freed, e)
+
 /-- `StorageServer.add_lease`: `add_or_renew_lease` on every share file, in directory order
     (the order of the association list); stops at the first error -/
 def addLeaseAll (env : Env) (li : Lease) : Bucket → Bucket × Option Err
